@@ -792,7 +792,15 @@ const Port *Ports::apropos(const char *path) const
                 ? port.ports->apropos(path_end)
                 : &port;
 
-    //This is the lowest level, now find the best port
+    //This is the lowest level, now find the best port:
+    //one which is called like the path rather than one which only starts
+    //like it ("filter/" rather than "filter_on" for the path "filter")
+    const size_t path_len = strlen(path);
+    for(const Port &port: ports)
+        if(*path && !strncmp(port.name, path, path_len) &&
+           (port.name[path_len] == '/' || port.name[path_len] == ':' ||
+            port.name[path_len] == '\0'))
+            return &port;
     for(const Port &port: ports)
         if(*path && (strstr(port.name, path)==port.name ||
                     rtosc_match_path(port.name, path, NULL)))
